@@ -6,7 +6,7 @@
 From Coq Require Import String List Arith Bool Lia QArith Qabs Qreduction Lqa.
 From CR Require Import Model.Num Model.Outcome Model.Graph Model.Game
      Proofs.Laws Proofs.GraphP Proofs.GameP Proofs.PruneStatesP Proofs.PipelineP Proofs.RewStepP
-     Proofs.ReachQ Proofs.ReachQ2 Proofs.C03Q Proofs.RewQ Proofs.RewQ2 Proofs.RewResQ Proofs.RewQ3.
+     Proofs.ReachQ Proofs.ReachQ2 Proofs.C03Q Proofs.RewQ Proofs.RewQ2 Proofs.RewResQ Proofs.RewQ3 Proofs.CondP.
 Import ListNotations.
 Local Open Scope Q_scope.
 
@@ -192,4 +192,342 @@ Proof.
       set (x := psum X (nxt n)) in *. set (y := psum Y (nxt n)) in *. set (z := psum Z (nxt n)) in *.
       set (x' := psum (er_vec sl) (nxt n)) in *. set (y' := psum (ermr_vec sl) (nxt n)) in *. set (z' := psum (erm_vec sl) (nxt n)) in *.
       repeat split; apply Qabs_Qle_condition; lra.
+Qed.
+
+(** * One Gauss-Seidel sweep of the reward loop: invariant on the triple *)
+Definition stat4 (sl : list nodeQ) (j : nat) :=
+  (nk (getq sl j), rew (getq sl j), nxt (getq sl j), reach (getq sl j)).
+Definition res_list (sl sl' : list nodeQ) (d : Q) (i : nat) : Prop :=
+  res_at (nk (getq sl i)) (rew (getq sl i)) (nxt (getq sl i)) (reach_vec qops sl)
+         (er_vec sl') (ermr_vec sl') (erm_vec sl') d i.
+
+Lemma res_list_static sl0 sl1 sl' d i :
+  (forall j, stat4 sl1 j = stat4 sl0 j) -> res_list sl1 sl' d i -> res_list sl0 sl' d i.
+Proof.
+  intros Hs. unfold res_list. pose proof (Hs i) as S. unfold stat4 in S. injection S as S1 S2 S3 _.
+  rewrite S1, S2, S3. apply res_at_ext; try reflexivity.
+  intros j. pose proof (Hs j) as S. unfold stat4 in S. injection S as _ _ _ S4. exact S4.
+Qed.
+
+Lemma sweep_diag_residual : forall (idxs : list nat) (sl : list nodeQ) md sl' md',
+  NoDup idxs -> (forall i, In i idxs -> (i < length sl)%nat) -> prob_ok sl -> 0 <= md ->
+  fold_left (fun o i =>
+     do st <- o;
+     let sl := fst st in let md := snd st in
+     let n := getq sl i in
+     match rew_step qops sl n with
+     | None => Crash "UnboundLocalError"%string
+     | Some (a, b, c) =>
+       let d := max3 qops (absf qops (sub qops a (er n))) (absf qops (sub qops b (ermr n))) (absf qops (sub qops c (erm n))) in
+       Ok (upd sl i (set_rews n a b c), if ltb qops md d then d else md)
+     end) idxs (Ok (sl, md)) = Ok (sl', md') ->
+  md <= md' /\
+  (forall j, stat4 sl' j = stat4 sl j) /\
+  (forall j, Qabs (er_vec sl' j - er_vec sl j) <= md' /\ Qabs (ermr_vec sl' j - ermr_vec sl j) <= md' /\
+             Qabs (erm_vec sl' j - erm_vec sl j) <= md') /\
+  (forall j, ~ In j idxs -> er_vec sl' j = er_vec sl j /\ ermr_vec sl' j = ermr_vec sl j /\ erm_vec sl' j = erm_vec sl j) /\
+  (forall i, In i idxs -> res_list sl sl' md' i).
+Proof.
+  induction idxs as [|i idxs IH]; intros sl md sl' md' Hnd Hr Hp Hmd H; cbn [fold_left] in H.
+  - inversion H; subst. split; [lra|]. split; [reflexivity|].
+    split; [intros j; repeat split; rewrite Qabs_pos; lra|].
+    split; [intros j _; repeat split|intros i []].
+  - cbn [bind fst snd] in H. inversion Hnd as [|? ? Hni Hnd']; subst.
+    destruct (rew_step qops sl (getq sl i)) as [[[a b] c]|] eqn:E.
+    2:{ exfalso. clear -H. induction idxs as [|j idxs IHi]; cbn [fold_left] in H; [discriminate|]. apply IHi. exact H. }
+    set (n := getq sl i) in *.
+    set (d := max3 qops (absf qops (sub qops a (er n))) (absf qops (sub qops b (ermr n))) (absf qops (sub qops c (erm n)))) in *.
+    set (md1 := if ltb qops md d then d else md) in *.
+    assert (Hi : (i < length sl)%nat) by (apply Hr; left; reflexivity).
+    assert (Hdabc : Qabs (a - er n) <= d /\ Qabs (b - ermr n) <= d /\ Qabs (c - erm n) <= d).
+    { subst d. pose proof (max3_ge_all (absf qops (sub qops a (er n))) (absf qops (sub qops b (ermr n)))
+                                        (absf qops (sub qops c (erm n)))) as (M1 & M2 & M3).
+      change (absf qops (sub qops a (er n))) with (Qabs (qsub a (er n))) in *.
+      change (absf qops (sub qops b (ermr n))) with (Qabs (qsub b (ermr n))) in *.
+      change (absf qops (sub qops c (erm n))) with (Qabs (qsub c (erm n))) in *.
+      rewrite qsub_ok in M1 at 1. rewrite qsub_ok in M2 at 1. rewrite qsub_ok in M3 at 1.
+      repeat split; assumption. }
+    destruct Hdabc as (Hda & Hdb & Hdc).
+    assert (Hd0 : 0 <= d) by (eapply Qle_trans; [apply Qabs_nonneg|exact Hda]).
+    assert (Hmd1 : md <= md1 /\ d <= md1).
+    { subst md1. change (ltb qops) with qltb. destruct (qltb_cases md d) as [[-> A]|[-> A]]; lra. }
+    set (sl1 := upd sl i (set_rews n a b c)) in *.
+    assert (Hstat1 : forall j, stat4 sl1 j = stat4 sl j).
+    { intros j. unfold stat4, sl1. destruct (Nat.eq_dec i j) as [<-|Hne].
+      - rewrite getn_upd_eq by exact Hi. reflexivity.
+      - rewrite getn_upd_neq by exact Hne. reflexivity. }
+    assert (Hv1 : forall j, er_vec sl1 j = (if Nat.eqb j i then a else er_vec sl j) /\
+                            ermr_vec sl1 j = (if Nat.eqb j i then b else ermr_vec sl j) /\
+                            erm_vec sl1 j = (if Nat.eqb j i then c else erm_vec sl j)).
+    { intros j. unfold er_vec, ermr_vec, erm_vec, sl1. destruct (Nat.eqb_spec j i) as [->|Hne].
+      - rewrite getn_upd_eq by exact Hi. repeat split.
+      - rewrite getn_upd_neq by congruence. repeat split. }
+    assert (Hp1 : prob_ok sl1).
+    { intros j. pose proof (Hstat1 j) as S. unfold stat4 in S. injection S as S1 S2 S3 _. rewrite S1, S3. apply Hp. }
+    destruct (IH sl1 md1 sl' md' Hnd') as (I1 & I2 & I3 & I4 & I5); try assumption; try lra.
+    { intros k Hk. unfold sl1. rewrite upd_length. apply Hr. right. exact Hk. }
+    assert (Hstat : forall j, stat4 sl' j = stat4 sl j) by (intros j; rewrite I2; apply Hstat1).
+    assert (Hclose : forall j, Qabs (er_vec sl' j - er_vec sl j) <= md' /\ Qabs (ermr_vec sl' j - ermr_vec sl j) <= md' /\
+                               Qabs (erm_vec sl' j - erm_vec sl j) <= md').
+    { intros j. destruct (Hv1 j) as (V1 & V2 & V3). destruct (Nat.eq_dec j i) as [->|Hne].
+      - destruct (I4 i Hni) as (J1 & J2 & J3). rewrite J1, J2, J3, V1, V2, V3, Nat.eqb_refl.
+        unfold er_vec, ermr_vec, erm_vec. fold n. repeat split; lra.
+      - destruct (I3 j) as (J1 & J2 & J3). rewrite V1 in J1. rewrite V2 in J2. rewrite V3 in J3.
+        destruct (Nat.eqb_spec j i); [contradiction|]. repeat split; assumption. }
+    split; [lra|]. split; [exact Hstat|]. split; [exact Hclose|]. split.
+    + intros j Hj. destruct (I4 j) as (J1 & J2 & J3); [intros Hin; apply Hj; right; exact Hin|].
+      destruct (Hv1 j) as (V1 & V2 & V3). rewrite J1, J2, J3, V1, V2, V3.
+      destruct (Nat.eqb_spec j i) as [->|_]; [exfalso; apply Hj; left; reflexivity|repeat split].
+    + intros k [<-|Hk].
+      * (* the state updated first: its values are the step expressions of the vectors at that time;
+           every component of every state moved by at most md' since *)
+        destruct (I4 i Hni) as (J1 & J2 & J3). destruct (Hv1 i) as (V1 & V2 & V3). rewrite Nat.eqb_refl in V1, V2, V3.
+        unfold res_list. fold n. apply (rew_step_res sl n a b c); try assumption.
+        -- eapply Qle_trans; [exact Hd0|lra].
+        -- intros j. apply (Hclose j).
+        -- intros j. apply (Hclose j).
+        -- intros j. apply (Hclose j).
+        -- intros Hk. apply Hp. exact Hk.
+        -- congruence.
+        -- congruence.
+        -- congruence.
+      * apply (res_list_static sl sl1); [exact Hstat1|]. apply I5. exact Hk.
+Qed.
+
+(** * The reward loop: when it stops, the step equations of all three quantities hold up to the
+    threshold at every state, measured in the final vectors *)
+Theorem vi_diag_residual : forall fuel (sl : list nodeQ) i sl' k,
+  prob_ok sl -> vi_rew qops fuel sl i = Ok (sl', k) ->
+  (forall j, stat4 sl' j = stat4 sl j) /\
+  forall s, (s < length sl)%nat -> res_list sl sl' q_thr s.
+Proof.
+  induction fuel as [|fuel IH]; intros sl i sl' k Hp H; cbn [vi_rew] in H; [discriminate|].
+  destruct (sweep_rew qops sl) as [[sl1 d]| | |] eqn:E; cbn [bind] in H; try discriminate.
+  cbn [fst snd] in H. unfold sweep_rew in E.
+  destruct (sweep_diag_residual (seq 0 (length sl)) sl (zero qops) sl1 d (seq_NoDup _ _)) as (R1 & R2 & R3 & R4 & R5);
+    try assumption; try (cbn; lra).
+  { intros j Hj. apply in_seq in Hj. lia. }
+  change (ltb qops (thr qops) d) with (qltb q_thr d) in H.
+  destruct (qltb_cases q_thr d) as [[Eq _]|[Eq Hle]]; rewrite Eq in H.
+  - assert (Hp1 : prob_ok sl1).
+    { intros j. pose proof (R2 j) as S. unfold stat4 in S. injection S as S1 S2 S3 _. rewrite S1, S3. apply Hp. }
+    destruct (IH sl1 _ sl' k Hp1 H) as [J1 J2]. split; [intros j; rewrite J1; apply R2|].
+    intros s Hs. assert (Hl : length sl1 = length sl).
+    { apply (map_eq_length (erase_rews qops)). apply (sweep_rew_frame qops _ _ _ _ _ E). }
+    rewrite <- Hl in Hs. apply (res_list_static sl sl1); [exact R2|]. apply J2. exact Hs.
+  - inversion H; subst. split; [exact R2|]. intros s Hs.
+    apply (res_at_weaken _ _ _ _ _ _ _ d); [exact Hle|]. apply R5. apply in_seq. lia.
+Qed.
+
+(** * End to end *)
+(* what the stages between the reachability loop and the reward loop preserve *)
+Lemma solve_stage3 fuel (g : gameQ) prune (r : @result Q) sl1 sl3 :
+  wf_game qops g -> num_wf1 g ->
+  solve_reach_fuel qops fuel g prune = Ok (sl1, r_reachs r, r_it_reach r) ->
+  prune_stage qops prune (prune_reachability (r_reachs r) sl1) = Ok sl3 ->
+  prob_ok sl3 /\ length sl3 = nstates g /\
+  forall i, nk (getq sl3 i) = nk (getq sl1 i) /\ rew (getq sl3 i) = rew (getq sl1 i) /\
+            reach (getq sl3 i) = reach (getq sl1 i).
+Proof.
+  intros Hwf Hnum Ha Hb.
+  destruct (reach_static_chain qops _ _ _ _ _ _ Hwf Ha) as [Hlen Hst].
+  pose proof Ha as Ha'. apply solve_reach_inv in Ha'. destruct Ha' as (_ & _ & _ & _ & _ & _ & _ & _ & Hrs).
+  assert (Hlrs : length (r_reachs r) = length sl1) by (rewrite Hrs; unfold strats_reach; apply map_length).
+  assert (H1 : forall i, row_ok (getq sl1 i)).
+  { intros i Hk. destruct (Nat.lt_ge_cases i (nstates g)) as [Hi|Hi].
+    - destruct (Hst i Hi) as (Hk1 & Hn1 & _). rewrite Hn1. apply Hnum. rewrite <- Hk1. exact Hk.
+    - rewrite getn_out by (rewrite Hlen; exact Hi). split; [intros t []|cbn; lra]. }
+  set (sl2 := prune_reachability (r_reachs r) sl1) in *.
+  assert (H2 : forall i, row_ok (getq sl2 i) /\ nk (getq sl2 i) = nk (getq sl1 i) /\ rew (getq sl2 i) = rew (getq sl1 i) /\
+                         reach (getq sl2 i) = reach (getq sl1 i)).
+  { intros i. split; [|split; [|split]].
+    - subst sl2. destruct (Nat.lt_ge_cases i (length sl1)) as [Hi|Hi].
+      + rewrite prune_reachability_nth by assumption. cbn zeta.
+        destruct (nk (getq sl1 i)) eqn:Ek; destruct (nth i (r_reachs r) None) eqn:En; cbv iota beta; try apply H1.
+        intros Hk; cbn in Hk; congruence.
+      + rewrite getn_out by (rewrite prune_reachability_length; assumption). intros _; split; [intros t []|cbn; lra].
+    - apply prune_reachability_nk. exact Hlrs.
+    - subst sl2. destruct (Nat.lt_ge_cases i (length sl1)) as [Hi|Hi].
+      + rewrite prune_reachability_nth by assumption. cbn zeta.
+        destruct (nk (getq sl1 i)); destruct (nth i (r_reachs r) None); reflexivity.
+      + rewrite !getn_out; [reflexivity|exact Hi|rewrite prune_reachability_length; assumption].
+    - apply prune_reachability_reach. exact Hlrs. }
+  assert (H3 : forall i, row_ok (getq sl3 i) /\ nk (getq sl3 i) = nk (getq sl1 i) /\ rew (getq sl3 i) = rew (getq sl1 i) /\
+                         reach (getq sl3 i) = reach (getq sl1 i)).
+  { intros i. destruct (H2 i) as (R2 & K2 & W2 & P2'). unfold prune_stage in Hb. destruct prune.
+    - pose proof (prune_paths_node_fields qops sl2 (getq sl2 i)) as Hf. cbn zeta in Hf. destruct Hf as (Hk & Hrw & _).
+      pose proof (prune_paths_reach qops sl2 i) as Hre. rewrite prune_paths_getn in Hre.
+      destruct (prune_states_only_cleared qops _ _ _ _ i Hb) as [[E0|[E0 _]] _]; rewrite E0, prune_paths_getn.
+      + split; [apply prune_paths_node_row_ok; exact R2|]. repeat split; congruence.
+      + cbn [nk rew reach set_nxt]. split; [intros _; split; [intros t []|cbn; lra]|]. repeat split; congruence.
+    - inversion Hb; subst sl3. split; [exact R2|repeat split; assumption]. }
+  split; [|split].
+  - intros i Hk. destruct (H3 i) as (R3 & _). destruct (R3 Hk) as [W1 W2]. split; [apply pos_nonneg; exact W1|exact W2].
+  - unfold prune_stage in Hb. destruct prune.
+    + destruct (prune_states_only_cleared qops _ _ _ _ 0%nat Hb) as [_ Hl]. rewrite Hl, prune_paths_length.
+      subst sl2. rewrite prune_reachability_length; assumption.
+    + inversion Hb; subst sl3. subst sl2. rewrite prune_reachability_length; assumption.
+  - intros i. destruct (H3 i) as (_ & A & B & C). repeat split; assumption.
+Qed.
+
+(* For every well-formed game whose probabilistic transitions carry positive probabilities summing to
+   at most 1, both modes, when solve returns: at every state the reported expected rewards, 'rewards
+   under minimal reachability' and 'probabilities under minimal reward' satisfy the equations of one
+   reward step on the conditioned row (r_pruned) up to the threshold. *)
+Theorem solve_diag_consistent fuel (g : gameQ) prune r :
+  wf_game qops g -> num_wf1 g -> solve_fuel qops fuel g prune = Ok r ->
+  forall s, (s < nstates g)%nat ->
+    res_at (nth s (g_players g) PR) (nth s (g_rewards g) 0) (nth s (r_pruned r) [])
+           (fun i => nth i (r_probs r) 0)
+           (fun i => nth i (r_rewards r) 0) (fun i => nth i (r_rew_min_reach r) 0) (fun i => nth i (r_prob_min_rew r) 0)
+           q_thr s.
+Proof.
+  intros Hwf Hnum H s Hs. apply solve_inv in H. destruct H as (sl1 & sl3 & sl4 & it2 & Ha & Hb & Hc & Hr).
+  destruct (reach_static_chain qops _ _ _ _ _ _ Hwf Ha) as [Hlen Hst].
+  destruct (solve_stage3 fuel g prune r sl1 sl3 Hwf Hnum Ha Hb) as (Hp3 & Hl3 & H3).
+  destruct (vi_diag_residual fuel sl3 0 sl4 it2 Hp3 Hc) as [_ Hres].
+  specialize (Hres s). rewrite Hl3 in Hres. specialize (Hres Hs). unfold res_list in Hres.
+  destruct (H3 s) as (K3 & W3 & _). destruct (Hst s Hs) as (Hk1 & _ & Hr1 & _).
+  assert (Hrow : nth s (r_pruned r) [] = nxt (getq sl3 s)).
+  { rewrite Hr. cbn [r_pruned]. change (@nil trans) with (nxt (dnode qops)). apply map_nth. }
+  rewrite K3, W3, Hk1, Hr1, <- Hrow in Hres. change (zero qops) with (0:Q) in Hres.
+  revert Hres. apply res_at_ext.
+  - intros j. destruct (H3 j) as (_ & _ & E). unfold reach_vec. rewrite E, Hr. cbn [r_probs].
+    change (0:Q) with (reach (dnode qops)). symmetry. apply map_nth.
+  - intros j. rewrite Hr. cbn [r_rewards]. change (0:Q) with (er (dnode qops)). symmetry. apply map_nth.
+  - intros j. rewrite Hr. cbn [r_rew_min_reach]. change (0:Q) with (ermr (dnode qops)). symmetry. apply map_nth.
+  - intros j. rewrite Hr. cbn [r_prob_min_rew]. change (0:Q) with (erm (dnode qops)). symmetry. apply map_nth.
+Qed.
+
+(** * The four cases spelled out *)
+Section Cases.
+Variables (fuel : nat) (g : gameQ) (prune : bool) (r : @result Q).
+Hypothesis Hwf : wf_game qops g.
+Hypothesis Hnum : num_wf1 g.
+Hypothesis Hsolve : solve_fuel qops fuel g prune = Ok r.
+
+(* (a) probabilistic state with a non-empty conditioned row *)
+Theorem solve_diag_probabilistic s : (s < nstates g)%nat ->
+  let row := nth s (r_pruned r) [] in let rw := nth s (g_rewards g) 0 in
+  let x := fun i => nth i (r_rewards r) 0 in
+  let y := fun i => nth i (r_rew_min_reach r) 0 in
+  let z := fun i => nth i (r_prob_min_rew r) 0 in
+  nth s (g_players g) PR = PR -> row <> [] ->
+  Qabs (rw + psum x row - x s) <= q_thr /\ Qabs (rw + psum y row - y s) <= q_thr /\ Qabs (psum z row - z s) <= q_thr.
+Proof.
+  intros Hs row rw x y z Hk Hne. pose proof (solve_diag_consistent fuel g prune r Hwf Hnum Hsolve s Hs) as H.
+  unfold res_at in H. rewrite Hk in H. fold row in H. destruct row; [congruence|exact H].
+Qed.
+
+(* (b) Player-1 state with a non-empty conditioned row: all three follow ONE successor *)
+Theorem solve_diag_player1 s : (s < nstates g)%nat ->
+  let row := nth s (r_pruned r) [] in let rw := nth s (g_rewards g) 0 in
+  let x := fun i => nth i (r_rewards r) 0 in
+  let y := fun i => nth i (r_rew_min_reach r) 0 in
+  let z := fun i => nth i (r_prob_min_rew r) 0 in
+  nth s (g_players g) PR = P1 -> row <> [] ->
+  exists t, In t row /\
+    Qabs (rw + x (dst t) - x s) <= q_thr /\ Qabs (rw + y (dst t) - y s) <= q_thr /\ Qabs (z (dst t) - z s) <= q_thr.
+Proof.
+  intros Hs row rw x y z Hk Hne. pose proof (solve_diag_consistent fuel g prune r Hwf Hnum Hsolve s Hs) as H.
+  unfold res_at in H. rewrite Hk in H. fold row in H. destruct row; [congruence|exact H].
+Qed.
+
+(* (c) Player-2 state with a non-empty conditioned row: reward and probability diagnostic follow one
+   successor; the reward diagnostic is, up to the threshold, reward + the running minimum of the FINAL
+   reward-diagnostic vector over the successors whose action is in the state's 6-digit reachability
+   strategy, seeded with the first such successor (exactly 0 when that strategy is empty) *)
+Theorem solve_diag_player2 s : (s < nstates g)%nat ->
+  let row := nth s (r_pruned r) [] in let rw := nth s (g_rewards g) 0 in
+  let x := fun i => nth i (r_rewards r) 0 in
+  let y := fun i => nth i (r_rew_min_reach r) 0 in
+  let z := fun i => nth i (r_prob_min_rew r) 0 in
+  let strats := p2strats (fun i => nth i (r_probs r) 0) row in
+  nth s (g_players g) PR = P2 -> row <> [] ->
+  (exists t, In t row /\ Qabs (rw + x (dst t) - x s) <= q_thr /\ Qabs (z (dst t) - z s) <= q_thr) /\
+  (strats = [] -> y s = 0) /\
+  (strats <> [] -> exists f0 fl, filter (fun t => mem_str (act t) strats) row = f0 :: fl /\
+                                 Qabs (rw + rmin y strats row (y (dst f0)) - y s) <= q_thr).
+Proof.
+  intros Hs row rw x y z strats Hk Hne. pose proof (solve_diag_consistent fuel g prune r Hwf Hnum Hsolve s Hs) as H.
+  unfold res_at in H. rewrite Hk in H. fold row in H. destruct row; [congruence|exact H].
+Qed.
+
+(* (d) a state whose conditioned row is empty reports exactly 0 three times *)
+Theorem solve_diag_empty s : (s < nstates g)%nat ->
+  nth s (r_pruned r) [] = [] ->
+  nth s (r_rewards r) 0 = 0 /\ nth s (r_rew_min_reach r) 0 = 0 /\ nth s (r_prob_min_rew r) 0 = 0.
+Proof.
+  intros Hs He. pose proof (solve_diag_consistent fuel g prune r Hwf Hnum Hsolve s Hs) as H.
+  unfold res_at in H. rewrite He in H. exact H.
+Qed.
+
+(* the strategy used in (c) is the REPORTED reachability strategy of the state, and the conditioned row
+   of a Player-2 state that has not been emptied is its original row (no numeric hypothesis needed) *)
+Theorem solve_p2_strategy_is_reported s : (s < nstates g)%nat ->
+  nth s (g_players g) PR = P2 -> nth s (r_pruned r) [] <> [] ->
+  nth s (r_pruned r) [] = nth s (g_trans g) [] /\
+  nth s (r_reachs r) None = Some (p2strats (fun i => nth i (r_probs r) 0) (nth s (r_pruned r) [])).
+Proof.
+  intros Hs Hk Hne.
+  destruct (pruned_is_conditioned qops fuel g prune r Hwf Hsolve) as [_ Hc].
+  destruct (Hc s Hs) as [[Hrow|(_ & _ & He)] _]; [|congruence].
+  rewrite (cond_rows_nth qops g r prune s Hs) in Hrow. unfold cond_row in Hrow. rewrite Hk in Hrow.
+  assert (Hrow' : nth s (r_pruned r) [] = nth s (g_trans g) []) by (destruct prune; exact Hrow).
+  split; [exact Hrow'|]. rewrite Hrow'.
+  pose proof Hsolve as H. apply solve_inv in H. destruct H as (sl1 & sl3 & sl4 & it2 & Ha & Hb & Hc' & Hr).
+  destruct (reach_static_chain qops _ _ _ _ _ _ Hwf Ha) as [Hlen Hst].
+  pose proof Ha as Ha'. apply solve_reach_inv in Ha'. destruct Ha' as (_ & _ & _ & _ & _ & _ & _ & _ & Hrs).
+  rewrite Hrs, strats_reach_nth. unfold strat_reach. destruct (Hst s Hs) as (Hk1 & Hn1 & _).
+  rewrite Hk1, Hk, Hn1. f_equal. unfold p2strats. f_equal. f_equal. apply map_ext. intros t.
+  rewrite Hr. cbn [r_probs]. change (0:Q) with (reach (dnode qops)). rewrite map_nth. reflexivity.
+Qed.
+End Cases.
+
+(** * Non-vacuity: a game with all three kinds of state; with pruning state 4 is emptied *)
+(* 0: Player 1, 'a' -> 1, 'b' -> 2; 1: Player 2, 'c' -> 3 (final), 'd' -> 2; 2: coin flip (reward 1) to the
+   final state 3 or to the sink 4; 3, 4: self-loops *)
+Definition dq_game : gameQ :=
+  mkG [0; 0; 1; 0; 0] [P1; P2; PR; PR; PR]
+      [[mkT "a"%string 0 1%nat; mkT "b"%string 0 2%nat]; [mkT "c"%string 0 3%nat; mkT "d"%string 0 2%nat];
+       [mkT ""%string (1#2) 3%nat; mkT ""%string (1#2) 4%nat]; [mkT ""%string 1 3%nat]; [mkT ""%string 1 4%nat]] [3%nat].
+
+Lemma dq_wf : wf_game qops dq_game.
+Proof.
+  unfold wf_game, nstates. cbn [dq_game g_trans g_rewards g_players g_finals length].
+  split; [reflexivity|]. split; [reflexivity|]. split.
+  - intros r Hr. cbn in Hr. destruct Hr as [<-|[<-|[<-|[<-|[<-|[]]]]]]; reflexivity.
+  - split; [discriminate|]. split.
+    + intros f [<-|[]]. lia.
+    + intros tr Htr. cbn in Htr.
+      destruct Htr as [<-|[<-|[<-|[<-|[<-|[]]]]]]; (split; [discriminate|]); intros t Ht; cbn in Ht.
+      * destruct Ht as [<-|[<-|[]]]; cbn; lia.
+      * destruct Ht as [<-|[<-|[]]]; cbn; lia.
+      * destruct Ht as [<-|[<-|[]]]; cbn; lia.
+      * destruct Ht as [<-|[]]; cbn; lia.
+      * destruct Ht as [<-|[]]; cbn; lia.
+Qed.
+
+Lemma dq_num_wf1 : num_wf1 dq_game.
+Proof.
+  intros i Hk.
+  destruct i as [|i]; [discriminate Hk|]. destruct i as [|i]; [discriminate Hk|].
+  destruct i as [|i]; [split; [intros t [<-|[<-|[]]]; reflexivity|cbn; lra]|].
+  destruct i as [|i]; [split; [intros t [<-|[]]; reflexivity|cbn; lra]|].
+  destruct i as [|i]; [split; [intros t [<-|[]]; reflexivity|cbn; lra]|].
+  cbn [dq_game g_trans nth]. destruct i; (split; [intros t []|cbn; lra]).
+Qed.
+
+Lemma dq_solves :
+  exists r, solve_fuel qops 100 dq_game true = Ok r /\
+    (* state 0: Player 1, state 1: Player 2, state 2: probabilistic, all with non-empty conditioned rows *)
+    nth 0 (r_pruned r) [] <> [] /\ nth 1 (r_pruned r) [] <> [] /\ nth 2 (r_pruned r) [] <> [] /\
+    (* state 4 has been emptied *)
+    nth 4 (r_pruned r) [] = [] /\
+    (* Player 2's 6-digit reachability strategy at state 1 is not empty *)
+    p2strats (fun i => nth i (r_probs r) 0) (nth 1 (r_pruned r) []) = ["d"%string] /\
+    r_rewards r = [1; 0; 1; 0; 0] /\ r_rew_min_reach r = [1; 1; 1; 0; 0] /\ r_prob_min_rew r = [1; 1; 1; 1; 0].
+Proof.
+  eexists. split; [vm_compute; reflexivity|].
+  repeat split; try discriminate.
 Qed.
